@@ -70,6 +70,23 @@ class NameVal(Model):
         self.e = e
 
 
+class KindConst(Model):
+    """the ``kind`` argument of Node(...): only whether it is the fork kind matters to the graph structure"""
+    def __init__(self, isfork):
+        self.isfork = isfork
+
+    def m_compare(self, ex, st, op, a, b, node):
+        other = b if a is self else a
+        if other != '__fork__' or op not in (ast.Eq, ast.NotEq):
+            raise NotInSubset('comparison of a node kind with something other than the fork kind')
+        r = SBool(self.isfork)
+        return r if op is ast.Eq else SBool(z3.Not(self.isfork))
+
+
+class EmptyPins(Model):
+    """GrowingList(): a new empty pin list"""
+
+
 class LineRef(Ref):
     def m_getattr(self, ex, st, name, node):
         ex.prove(st, f'no-exception:AttributeError .{name} of None', self.oid != NONE, node)
@@ -107,6 +124,15 @@ class NodeRef(Ref):
         return cls is not tuple and cls != (tuple,) and False
 
     def m_setattr(self, ex, st, name, val, node):
+        if name == 'name' and isinstance(val, NameVal):
+            st.heap[('N', 'name')] = z3.Store(st.heap[('N', 'name')], self.oid, val.e)
+            return
+        if name == 'kind' and isinstance(val, KindConst):
+            st.heap[('N', 'isfork')] = z3.Store(st.heap[('N', 'isfork')], self.oid, val.isfork)
+            return
+        if name in ('ins', 'outs') and isinstance(val, EmptyPins):
+            st.heap[('N', name + '_len')] = z3.Store(st.heap[('N', name + '_len')], self.oid, 0)
+            return
         if name not in ('circuit', 'index'):
             raise NotInSubset(f'node.{name} = ..')
         st.heap[('N', name)] = z3.Store(st.heap[('N', name)], self.oid, val_id(val))
@@ -227,6 +253,12 @@ class NameTable(Model):
         if not isinstance(key, NameVal):
             raise NotInSubset('name table key')
         return SBool(st.heap[('C', self.name + '_dom')][key.e])
+
+    def m_setitem(self, ex, st, key, val, node):
+        if not isinstance(key, NameVal) or not isinstance(val, NodeRef):
+            raise NotInSubset('name table entry')
+        st.heap[('C', self.name + '_dom')] = z3.Store(st.heap[('C', self.name + '_dom')], key.e, True)
+        st.heap[('C', self.name + '_val')] = z3.Store(st.heap[('C', self.name + '_val')], key.e, val.oid)
 
     def m_delitem(self, ex, st, key, node):
         if not isinstance(key, NameVal):
@@ -442,7 +474,48 @@ def line_init_config(explicit):
     return Config('explicit free pins' if explicit else 'first free pins', {'post': post, 'expr_fork': True}, setup, None)
 
 
+# ---------------------------------------------------------------------------------------------------------------- Node.__init__
+def node_init_config():
+    def setup(ex):
+        st = fresh_state(ex)
+        v = V(st)
+        me = ex.fv('self', 'int').e
+        nm = ex.fv('name', 'int').e
+        isf = z3.Bool('kind_is_fork')
+        for nm_, c in wf_nodes(v):
+            st.assume(SBool(c))
+        i = z3.Int('i')
+        # a fresh object: not in the node list, not registered
+        st.assume(SBool(z3.And(me != NONE, z3.Not(v.inN(me)), z3.ForAll([i], z3.Implies(z3.And(0 <= i, i < v.NN), v.NS[i] != me)),
+                               z3.ForAll([i], z3.And(z3.Implies(v.Fd[i], v.Fv[i] != me), z3.Implies(v.Cd[i], v.Cv[i] != me))))))
+        # the assertion of the constructor (name not yet taken in the table of the kind) is the caller's obligation
+        st.assume(SBool(z3.If(isf, z3.Not(v.Fd[nm]), z3.Not(v.Cd[nm]))))
+        st.env.update(self=NodeRef(me), circuit=CircRef(z3.IntVal(0)), name=NameVal(nm), kind=KindConst(isf))
+        ex.g = dict(me=me, nm=nm, isf=isf, v0=v)
+        return st
+
+    def post(ex, st):
+        g = ex.g
+        v0, v1, me = g['v0'], V(st), g['me']
+        for nm_, c in wf_nodes(v1):
+            yield nm_, SBool(c)
+        n = z3.Int('n')
+        yield 'the new node is the last node of the circuit, with empty pin lists, registered under its name in the table of its kind', \
+            SBool(z3.And(v1.NN == v0.NN + 1, v1.inN(me), v1.Ni[me] == v0.NN, v1.Nc[me] == 0, v1.OL[me] == 0, v1.IL[me] == 0, v1.Nn[me] == g['nm'], v1.Nf[me] == g['isf'],
+                         z3.If(g['isf'], z3.And(v1.Fd[g['nm']], v1.Fv[g['nm']] == me, v1.Cd == v0.Cd, v1.Cv == v0.Cv), z3.And(v1.Cd[g['nm']], v1.Cv[g['nm']] == me, v1.Fd == v0.Fd, v1.Fv == v0.Fv))))
+        yield 'every other node keeps its place', SBool(z3.ForAll([n], z3.Implies(n != me, z3.And(v1.inN(n) == v0.inN(n), v1.Ni[n] == v0.Ni[n]))))
+        ex.prove(st, 'mustfail:the node list keeps its length', SBool(v1.NN == v0.NN), ex.fn, expect='refuted')
+    return Config('fresh node, free name', {'post': post, 'expr_fork': True}, setup, None)
+
+
+def node_prims(globs):
+    def growing(ex, st, args, kwargs, node):
+        return EmptyPins()
+    return {globs['GrowingList']: growing}
+
+
 def targets():
-    return [Target('circuit', 'Line.__init__', [line_init_config(True), line_init_config(False)], instantiate='fallback'),
+    return [Target('circuit', 'Node.__init__', [node_init_config()], prims=node_prims, instantiate='fallback'),
+            Target('circuit', 'Line.__init__', [line_init_config(True), line_init_config(False)], instantiate='fallback'),
             Target('circuit', 'Node.remove', [node_remove_config()], instantiate='fallback'),
             Target('circuit', 'Line.remove', [line_remove_config()], instantiate='fallback')]
